@@ -401,7 +401,8 @@ def main(tier: str, budget_s: Optional[float] = None) -> int:
     total = Stats()
     info: List[Dict[str, Any]] = []
     complete = True
-    for ph in plan(tier):
+    # the shallower (cheaper) phases first, the deepest trees last: a budget that runs out cuts into depth, not into whole dimensions
+    for ph in sorted(plan(tier), key=lambda x: x["depth"]):
         symbols = WIDE if ph.get("symbols") == "wide" else SYMBOLS
         first = [s for s in symbols if s[0] in ("B", "E")]
         t, i, c = run_phases([ph], worker, first, symbols, EXTRA, deadline)
